@@ -6,23 +6,40 @@ From Verif Require Import Lib.ListX C02.Model C03.Model C03.Spec C03.Proofs C03.
 Import ListNotations.
 Open Scope Z_scope.
 
-Lemma INV_exec cfg : forall ops wf st sn,
-  INV cfg wf st -> FL wf st sn -> INV cfg (wf && wf_hist cfg st sn ops) (exec cfg st ops).
+Lemma ALL_exec cfg : forall ops wf st sn,
+  INV cfg wf st -> FL wf st sn -> EXI wf st ->
+  INV cfg (wf && wf_hist cfg st sn ops) (exec cfg st ops)
+  /\ EXI (wf && wf_hist cfg st sn ops) (exec cfg st ops).
 Proof.
-  induction ops as [|o t IH]; intros wf st sn I F; cbn [exec wf_hist].
-  - rewrite andb_true_r. exact I.
-  - rewrite andb_assoc. apply (IH _ _ (track cfg st sn o)); [apply INV_step|apply FL_step]; assumption.
+  induction ops as [|o t IH]; intros wf st sn I F X; cbn [exec wf_hist].
+  - rewrite andb_true_r. split; assumption.
+  - rewrite andb_assoc. apply (IH _ _ (track cfg st sn o));
+      [apply INV_step|apply FL_step|apply (EXI_step cfg wf st sn)]; assumption.
 Qed.
+
+Lemma INV_exec cfg ops wf st sn :
+  INV cfg wf st -> FL wf st sn -> EXI wf st -> INV cfg (wf && wf_hist cfg st sn ops) (exec cfg st ops).
+Proof. intros I F X. exact (proj1 (ALL_exec cfg ops wf st sn I F X)). Qed.
 
 (* ---------- histories that never give up the promise ---------- *)
 (* no max is lowered and no already-bound pod is replayed (or assigned by a later update event) *)
 Definition benign_op (st : state) (o : op) : bool :=
   match o with
-  | OPodAddBound _ _ _ _ _ => false
+  | OPodAddBound _ _ _ _ _ term => term   (* a terminated pod is cached but never charged *)
   | OPodRelabel id =>   (* an update event assigns an unassigned pod that carries a node name *)
-      match find_pod id (pods st) with Some p => p_assigned p || negb (p_bound p) | None => true end
+      match find_pod id (pods st) with
+      | Some p => p_assigned p || negb (p_bound p && negb (p_term p))
+      | None => true
+      end
+  | OPodStatus id term bind =>   (* the same through a status update *)
+      match find_pod id (pods st) with
+      | Some p => p_assigned p || negb ((p_bound p || bind) && negb term)
+      | None => true
+      end
   | OQuotaUpdate id mx _ _ _ =>
       match find_quota id (quotas st) with Some q => negb (lowers q mx) | None => true end
+  | ORestart =>   (* every pod the replay charges was assigned (admitted) before *)
+      forallb (fun p => p_assigned p || negb (replay_flag p)) (pods st)
   | _ => true
   end.
 Fixpoint benign (cfg : config) (st : state) (ops : list op) : bool :=
@@ -68,8 +85,8 @@ Lemma TI_step cfg wf st o :
   TI cfg (quotas (fst (step cfg st o))).
 Proof.
   intros I T Hb.
-  destruct o as [id parent lend decl mx mindecl mn w|id mx mindecl mn w|id qn np req keys|id|id|id|id|id|t
-                 |id qn np req keys|id|id|]; unfold step, apply_attempt; cbv zeta.
+  destruct o as [id parent lend decl mx mindecl mn w|id mx mindecl mn w|id qn np req keys term|id|id|id|id|id|t
+                 |id qn np req keys term|id|id|id term bind| |]; unfold step, apply_attempt; cbv zeta.
   - (* quota add *)
     destruct (id <=? 0) eqn:E0; cbn [orb fst]; [exact T|].
     destruct (find_quota id (quotas st)) eqn:Ef; cbn [orb fst]; [exact T|].
@@ -128,7 +145,11 @@ Proof.
     destruct (find_pod id (pods st)) as [p|]; cbn [fst quotas]; [|exact T].
     apply TI_touch. destruct (p_assigned p); [unfold refund; apply TI_upd_used|]; exact T.
   - exact T.
-  - discriminate Hb.
+  - (* bound pod: only a terminated one is benign *)
+    cbn [benign_op] in Hb. subst term.
+    destruct (find_pod id (pods st)); cbn [fst]; [exact T|].
+    destruct (find_quota qn (quotas st)); cbn [fst quotas]; [|exact T].
+    apply TI_touch. exact T.
   - (* allow-lent flip *)
     destruct (find_quota id (quotas st)) as [q00|]; cbn [fst quotas]; [|exact T].
     apply TI_refresh. apply TI_map; [apply neutral_keeps, neutral_flip| |exact T].
@@ -138,18 +159,38 @@ Proof.
     destruct (find_pod id (pods st)) as [p|]; cbn [fst]; [|exact T].
     destruct (p_assigned p); cbn [orb negb] in Hb.
     + cbn [fst quotas]. apply TI_touch. apply TI_upd_used. exact T.
-    + destruct (p_bound p); [discriminate Hb|]. cbn [fst quotas]. apply TI_touch. exact T.
+    + destruct (p_bound p && negb (p_term p)); [discriminate Hb|]. cbn [fst quotas]. apply TI_touch. exact T.
+  - (* pod status *)
+    cbn [benign_op] in Hb.
+    destruct (find_pod id (pods st)) as [p|]; cbn [fst]; [|exact T].
+    destruct (p_assigned p); cbn [orb negb andb] in Hb |- *; [exact T|].
+    destruct ((p_bound p || bind) && negb term); [discriminate Hb|]. exact T.
+  - (* restart: nothing new is tainted *)
+    cbn [benign_op] in Hb. cbn [fst quotas].
+    apply TI_refresh.
+    assert (Ef : fresh_ids st = []).
+    { unfold fresh_ids. rewrite forallb_forall in Hb.
+      induction (pods st) as [|p t IHp]; [reflexivity|]. cbn [flat_map].
+      pose proof (Hb p (or_introl eq_refl)) as Hp.
+      destruct (p_assigned p); cbn [orb negb andb] in Hp |- *.
+      - apply IHp. intros x Hx. apply Hb. right. exact Hx.
+      - apply negb_true_iff in Hp. rewrite Hp. cbn [app]. apply IHp. intros x Hx. apply Hb. right. exact Hx. }
+    rewrite Ef.
+    apply (TI_map cfg (usage_fn (mkState (taint_ids [] (quotas st)) (map restart_pod (pods st)) (total st))));
+      [apply keeps_usage_fn|reflexivity|].
+    unfold taint_ids. apply TI_map; [apply keeps_taint_fn| |exact T]. intros q _. reflexivity.
   - exact T.
 Qed.
 
 Lemma TI_exec cfg : forall ops wf st sn,
-  INV cfg wf st -> FL wf st sn -> TI cfg (quotas st) -> benign cfg st ops = true ->
+  INV cfg wf st -> FL wf st sn -> EXI wf st -> TI cfg (quotas st) -> benign cfg st ops = true ->
   TI cfg (quotas (exec cfg st ops)).
 Proof.
-  induction ops as [|o t IH]; intros wf st sn I F T Hb; cbn [exec benign] in *; [exact T|].
+  induction ops as [|o t IH]; intros wf st sn I F X T Hb; cbn [exec benign] in *; [exact T|].
   apply andb_true_iff in Hb. destruct Hb as [Hb1 Hb2].
   apply (IH (wf && op_okb st sn o) _ (track cfg st sn o));
-    [apply INV_step; assumption|apply FL_step; assumption|apply (TI_step cfg wf); assumption|exact Hb2].
+    [apply INV_step; assumption|apply FL_step; assumption|apply (EXI_step cfg wf st sn); assumption
+    |apply (TI_step cfg wf); assumption|exact Hb2].
 Qed.
 
 (* ---------- the history theorems ---------- *)
@@ -160,7 +201,7 @@ Theorem used_le_max_flag cfg ops :
             used_le_max q (q_used q).
 Proof.
   intros Hw q Hq Ht.
-  pose proof (INV_exec cfg ops true init_state None (INV_init cfg true) (FL_init true)) as I.
+  pose proof (INV_exec cfg ops true init_state None (INV_init cfg true) (FL_init true) (EXI_init true)) as I.
   rewrite Hw in I. exact (inv_used _ _ _ I eq_refl q Hq Ht).
 Qed.
 
@@ -176,7 +217,7 @@ Proof.
   apply (used_le_max_flag cfg ops Hw q Hq).
   destruct (q_taint q) eqn:Et; [exfalso|reflexivity].
   assert (T : TI cfg (quotas (exec cfg init_state ops))).
-  { apply (TI_exec cfg ops true init_state None (INV_init cfg true) (FL_init true)); [|exact Hb]. intros x []. }
+  { apply (TI_exec cfg ops true init_state None (INV_init cfg true) (FL_init true) (EXI_init true)); [|exact Hb]. intros x []. }
   destruct (T q Hq Et) as (Hc & c & Hcin & Hcp).
   destruct Hcase as [Hk|Hk]; [congruence|exact (Hk c Hcin Hcp)].
 Qed.
@@ -188,7 +229,7 @@ Theorem limit_le_max_hist cfg ops :
             used_le_max q (limit_of cfg (exec cfg init_state ops) q).
 Proof.
   intros q Hq Hok.
-  pose proof (INV_exec cfg ops true init_state None (INV_init cfg true) (FL_init true)) as I.
+  pose proof (INV_exec cfg ops true init_state None (INV_init cfg true) (FL_init true) (EXI_init true)) as I.
   apply limit_le_max; [exact (inv_nodup _ _ _ I)|exact Hq|exact Hok|exact (inv_creq _ _ _ I q Hq)].
 Qed.
 
@@ -201,10 +242,17 @@ Definition taint_reason (cfg : config) (st : state) (o : op) (i : Z) : Prop :=
   match o with
   | OQuotaUpdate id mx _ _ _ =>
       id = i /\ exists q, In q (quotas st) /\ q_id q = i /\ lowers q mx = true
-  | OPodAddBound _ qn _ _ _ => In i (map q_id (path st qn))
+  | OPodAddBound _ qn _ _ _ term => term = false /\ In i (map q_id (path st qn))
   | OQuotaAdd _ parent _ _ _ _ _ _ => parent = i /\ chk_parent cfg = false
   | OPodRelabel id =>
       exists p, find_pod id (pods st) = Some p /\ p_assigned p = false /\ p_bound p = true
+                /\ p_term p = false /\ In i (map q_id (path st (p_quota p)))
+  | OPodStatus id term bind =>
+      exists p, find_pod id (pods st) = Some p /\ p_assigned p = false
+                /\ (p_bound p || bind) = true /\ term = false
+                /\ In i (map q_id (path st (p_quota p)))
+  | ORestart =>
+      exists p, In p (pods st) /\ p_assigned p = false /\ p_bound p = true /\ p_term p = false
                 /\ In i (map q_id (path st (p_quota p)))
   | _ => False
   end.
@@ -255,8 +303,8 @@ Theorem taint_origin cfg st o q' :
   was_tainted st (q_id q') \/ taint_reason cfg st o (q_id q').
 Proof.
   unfold was_tainted.
-  destruct o as [id parent lend decl mx mindecl mn w|id mx mindecl mn w|id qn np req keys|id|id|id|id|id|t
-                 |id qn np req keys|id|id|]; unfold step, apply_attempt; cbv zeta; cbn [taint_reason].
+  destruct o as [id parent lend decl mx mindecl mn w|id mx mindecl mn w|id qn np req keys term|id|id|id|id|id|t
+                 |id qn np req keys term|id|id|id term bind| |]; unfold step, apply_attempt; cbv zeta; cbn [taint_reason].
   - (* quota add *)
     destruct (id <=? 0); cbn [orb fst]; [intros H Ht; left; exists q'; auto|].
     destruct (find_quota id (quotas st)); cbn [orb fst]; [intros H Ht; left; exists q'; auto|].
@@ -312,12 +360,14 @@ Proof.
   - (* bound pod *)
     destruct (find_pod id (pods st)); cbn [fst]; [intros H Ht; left; exists q'; auto|].
     destruct (find_quota qn (quotas st)); cbn [fst]; [|intros H Ht; left; exists q'; auto].
+    destruct term; cbn [fst].
+    { cbn [quotas]. intros H Ht. left. apply (taint_touch _ _ _ _ _ H Ht). }
     unfold charge. cbn [quotas]. intros H Ht.
     destruct (taint_upd_used _ _ _ _ _ H Ht) as (q1 & H1 & E1 & T1). rewrite <- E1.
     destruct (taint_touch _ _ _ _ _ H1 T1) as (q2 & H2 & E2 & T2). rewrite <- E2.
     destruct (taint_taint_ids _ _ _ H2 T2) as [(q0 & H0 & E0 & T0)|Hin].
     + left. exists q0. auto.
-    + right. exact Hin.
+    + right. split; [reflexivity|exact Hin].
   - (* allow-lent flip *)
     destruct (find_quota id (quotas st)) as [q00|]; cbn [fst quotas]; [|intros H Ht; left; exists q'; auto].
     intros H Ht. destruct (taint_refresh _ _ _ _ H Ht) as (q1 & H1 & E1 & T1). rewrite <- E1.
@@ -330,29 +380,41 @@ Proof.
     + cbn [fst quotas]. intros H Ht.
       destruct (taint_touch _ _ _ _ _ H Ht) as (q1 & H1 & E1 & T1). rewrite <- E1.
       left. apply (taint_upd_used _ _ _ _ _ H1 T1).
-    + destruct (p_bound p) eqn:Eb; cbn [fst].
+    + destruct (p_bound p && negb (p_term p)) eqn:Eb; cbn [fst].
       * unfold charge. cbn [quotas]. intros H Ht.
         destruct (taint_upd_used _ _ _ _ _ H Ht) as (q1 & H1 & E1 & T1). rewrite <- E1.
         destruct (taint_touch _ _ _ _ _ H1 T1) as (q2 & H2 & E2 & T2). rewrite <- E2.
         destruct (taint_taint_ids _ _ _ H2 T2) as [(q0 & H0 & E0 & T0)|Hin].
         -- left. exists q0. auto.
-        -- right. exists p. auto.
+        -- right. exists p. apply andb_true_iff in Eb. destruct Eb as [Eb1 Eb2].
+           apply negb_true_iff in Eb2. auto.
       * cbn [quotas]. intros H Ht. left. apply (taint_touch _ _ _ _ _ H Ht).
+  - (* pod status *)
+    destruct (find_pod id (pods st)) as [p|] eqn:Ef; cbn [fst]; [|intros H Ht; left; exists q'; auto].
+    destruct (negb (p_assigned p) && (p_bound p || bind) && negb term) eqn:Ec; cbn [fst].
+    + unfold charge. cbn [quotas]. intros H Ht.
+      destruct (taint_upd_used _ _ _ _ _ H Ht) as (q1 & H1 & E1 & T1). rewrite <- E1.
+      destruct (taint_taint_ids _ _ _ H1 T1) as [(q0 & H0 & E0 & T0)|Hin].
+      * left. exists q0. auto.
+      * right. exists p. apply andb_true_iff in Ec. destruct Ec as [Ec Ec3].
+        apply andb_true_iff in Ec. destruct Ec as [Ec1 Ec2].
+        apply negb_true_iff in Ec1, Ec3. auto.
+    + cbn [quotas]. intros H Ht. left. exists q'. auto.
+  - (* restart *)
+    cbn [fst quotas]. intros H Ht.
+    destruct (taint_refresh _ _ _ _ H Ht) as (q1 & H1 & E1 & T1). rewrite <- E1.
+    apply in_map_iff in H1. destruct H1 as (q2 & <- & H2). cbn [q_id q_taint set_usage] in *.
+    destruct (taint_taint_ids _ _ _ H2 T1) as [(q0 & H0 & E0 & T0)|Hin].
+    + left. exists q0. auto.
+    + right. unfold fresh_ids in Hin. apply in_flat_map in Hin. destruct Hin as (p & Hp & Hi).
+      destruct (negb (p_assigned p) && replay_flag p) eqn:Ec; [|destruct Hi].
+      apply andb_true_iff in Ec. destruct Ec as [Ec1 Ec2]. apply negb_true_iff in Ec1.
+      unfold replay_flag in Ec2. apply andb_true_iff in Ec2. destruct Ec2 as [Eb Et].
+      apply negb_true_iff in Et. exists p. auto.
   - intros H Ht; left; exists q'; auto.
 Qed.
 
 (* ---------- the usage figures are the from-scratch sums ---------- *)
-Lemma ALL_exec cfg : forall ops wf st sn,
-  INV cfg wf st -> FL wf st sn -> EXI wf st ->
-  INV cfg (wf && wf_hist cfg st sn ops) (exec cfg st ops)
-  /\ EXI (wf && wf_hist cfg st sn ops) (exec cfg st ops).
-Proof.
-  induction ops as [|o t IH]; intros wf st sn I F X; cbn [exec wf_hist].
-  - rewrite andb_true_r. split; assumption.
-  - rewrite andb_assoc. apply (IH _ _ (track cfg st sn o));
-      [apply INV_step|apply FL_step|apply (EXI_step cfg wf st sn)]; assumption.
-Qed.
-
 Theorem used_exact_hist cfg ops :
   wf_hist cfg init_state None ops = true ->
   let st := exec cfg init_state ops in
